@@ -1179,6 +1179,20 @@ pub fn add_dynamic(ch: &mut Chooser, root: &mut Obj, per_obj_num: u32, per_obj_d
                 }
             }
         }
+        // `separator` of an action that is not a pure separator: not a Q_PROPERTY, so even a constant
+        // value cannot go into the .ui; it is a binding of the support code
+        if k == Kind::Action && !used.contains("separator") && ch.chance(1, 5) {
+            let o = root.at(&p);
+            let value = if ch.chance(1, 2) { "true" } else { "false" };
+            // (a lone `separator: false` is silently dropped by the translator: known finding of C04, probed there)
+            if !o.binds.is_empty() {
+                let o = root.at_mut(&p);
+                o.binds.push(Bind::new("separator", value));
+                used.insert("separator".to_owned());
+                dyns.push(Dyn { obj: p.clone(), bind: o.binds.len() - 1, kind: DynKind::Binding { prop: "separator".to_owned(), setter: "setSeparator".to_owned() } });
+                ch.label("constant-separator-next-to-other-bindings");
+            }
+        }
         // handlers
         let sigs: Vec<&(&str, &str, &[(&str, &str)])> = SIGNALS.iter().filter(|(c, _, _)| m.derives(&class, c)).collect();
         let n_handlers = if !sigs.is_empty() && ch.chance(per_obj_num, per_obj_den) { 1 + ch.weighted(&[60, 25, 15]) } else { 0 };
